@@ -6,13 +6,14 @@ reader clients running the real dump / vector / additions / centre-type readers 
 that keep growing, duck-typed HOOMD trajectory and DCD peers fed to the real converters,
 and a LAMMPS log producer whose output may be cut at any byte.
 """
+import math
 import os
 
 import numpy as np
 
 from simkit import simio
 from simkit.engine import Refuse, Violation
-from simkit.worldbase import BUFS, CHUNKS, WorldBase
+from simkit.worldbase import BUFS, CHUNKS, LINE_FAULTS, WorldBase
 
 DUMPS = ("traj_a.atom", "traj_b.atom", "traj_c.atom")
 LOGS = ("log_a.lammps", "log_b.lammps")
@@ -298,7 +299,7 @@ class World(WorldBase):
             "faults": [],
         }
         if batch == "fault":
-            sw["faults"] = rng.sample(["short_read", "oserror_read", "clock_jump", "interrupt"], rng.randint(1, 4))
+            sw["faults"] = rng.sample(["short_read", "oserror_read", "clock_jump", "interrupt", "interrupt_line", "alloc_line"], rng.randint(1, 4))
             sw["p_fault"] = rng.choice([0.2, 0.4])
             sw["chunk"] = rng.choice(CHUNKS[:4])
             sw["buf"] = rng.choice(BUFS[:4])
@@ -345,6 +346,10 @@ class World(WorldBase):
             if k == "clock_jump":
                 if op["op"] in ("read_dump", "reread") and op.get("via") != "wrapper":
                     op["clock"] = [rng.choice([0.0, 1.7e9, -5.0]), rng.choice([-1e6, 0.0, 1.7e9 + 3600, 1e-9])]
+            elif k in LINE_FAULTS:
+                # cancelled / out of memory between two source lines of the reader; placed blindly,
+                # log-uniform over 1..3000 lines (short reads execute a few dozen, long ones thousands)
+                op["fault"] = {"kind": k, "at": int(math.exp(rng.uniform(0.0, math.log(3000.0))))}
             else:
                 op["fault"] = {"kind": k, "at": rng.randint(1, 60)}
         return op
@@ -634,7 +639,7 @@ class World(WorldBase):
         self.raise_nested()
         if exc is not None:
             self.drop_last()
-            if fired and fired[0] in ("oserror_read", "interrupt"):
+            if fired and fired[0] in ("oserror_read", "interrupt") + LINE_FAULTS:
                 self.ctx.probe("reader_failed_by_fault")
                 return None, True
             raise Violation(f"C19/reader-raised:{tag}", f"{exc[0]}: {exc[1]} for {self._brief(op)}")
